@@ -731,6 +731,27 @@ def path_shape_cases(tier, seed):
             descs = {(0, 1): {"kind": "move_data_paths", "site": ["T"]}, (1, 2): {"kind": "set_const", "site": ["T"]}, (2, 0): {"kind": "revert", "site": ["T"]}}
             hist = history_same_process([0, 1, 2, 0, 1], "reload") if store == "memory" or k % 2 else history_restart([0, 1, 2, 0, 1])
             cases.append(_case("pathvars:%s|%s" % (style, store), [v0, v1, v2], descs, hist, store))
+    # a kept call inside a branch that a module variable switches off: the path keeps what it served before.  (The
+    # versions with the branch off always carry function bodies whose results were never computed: when the result of the
+    # unexecuted call already exists in the store dds commits the path to it - static semantics - which is not judged.)
+    for store in stores:
+        pkg = "pc%d" % k
+        k += 1
+
+        def cond_program(flag, consts):
+            q = path_program(pkg, ["/cnd/always", "/cnd/sometimes", "/cnd/deep/er"], consts=consts, ret_str=False)
+            m = q["modules"][0]
+            vid = gen.add_var(q, m, "ENABLED", "bool", value=flag)
+            q["order"][m].remove(("var", vid))
+            q["order"][m].insert(0, ("var", vid))
+            for st in q["fns"][q["entry"]]["stmts"][1:]:
+                st["cond"] = vid
+            return q
+
+        versions = [cond_program("True", None), cond_program("False", {1: 901, 2: 902}), cond_program("True", {1: 901, 2: 902}), cond_program("False", {0: 900, 1: 903, 2: 904})]
+        descs = {(0, 1): {"kind": "branch_off+set_const", "site": ["T"]}, (1, 2): {"kind": "branch_on", "site": ["V"]}, (2, 3): {"kind": "branch_off+set_const_other", "site": ["T"]}, (3, 0): {"kind": "revert", "site": ["T"]}}
+        hist = history_same_process([0, 1, 2, 3, 0], "reload") if store == "memory" or k % 2 else history_restart([0, 1, 2, 3, 0])
+        cases.append(_case("pathcond|%s" % store, versions, descs, hist, store))
     # twins: one call kept under its path and under alias paths that appear over time
     for pi, paths in enumerate(PATH_SETS[:2]):
         for store in stores:
